@@ -5,6 +5,7 @@ import (
 	"go/token"
 	"path"
 	"path/filepath"
+	"sort"
 	"strconv"
 	"strings"
 )
@@ -116,6 +117,71 @@ func installStdlib(m *Machine) {
 		}
 		return unknownCall("strings.HasPrefix", args), nil
 	}
+	// strings.Index and relatives on a symbolic string: tokens stand for identifiers and type texts and never
+	// contain the separator (the assumption SplitN makes too); the result is a position in that string
+	indexModel := func(name string, last bool, byteArg bool) {
+		m.Ext[name] = func(m *Machine, pos token.Pos, recv Value, args []Value) (Value, error) {
+			if len(args) != 2 {
+				return nil, undecided(pos, "%s arity", name)
+			}
+			s, ok := args[0].(*Sym)
+			if !ok {
+				return unknownCall(name, args), nil
+			}
+			sep := ""
+			switch a := args[1].(type) {
+			case *Sym:
+				c, ok := a.Concrete()
+				if !ok {
+					return unknownCall(name, args), nil
+				}
+				sep = c
+			case int64:
+				sep = string(rune(a))
+			default:
+				return unknownCall(name, args), nil
+			}
+			if sep == "" {
+				return unknownCall(name, args), nil
+			}
+			if c, ok := s.Concrete(); ok {
+				if last {
+					return int64(strings.LastIndex(c, sep)), nil
+				}
+				return int64(strings.Index(c, sep)), nil
+			}
+			found, fp, fo := false, 0, 0
+			for pi, p := range s.Parts {
+				if p.Tok != "" {
+					continue
+				}
+				i := strings.Index(p.Lit, sep)
+				if last {
+					i = strings.LastIndex(p.Lit, sep)
+				}
+				if i >= 0 && (!found || last) {
+					found, fp, fo = true, pi, i
+				}
+			}
+			if !found {
+				return int64(-1), nil
+			}
+			lower := int64(fo)
+			for _, p := range s.Parts[:fp] {
+				if p.Tok != "" {
+					lower++
+				} else {
+					lower += int64(len(p.Lit))
+				}
+			}
+			return &Unknown{Why: fmt.Sprintf("%s(%q,%q)", name, s.Flat(), sep), Lower: lower, HasLower: true, Cut: &Cut{S: s, Part: fp, Off: fo}}, nil
+		}
+	}
+	indexModel("strings.Index", false, false)
+	indexModel("strings.IndexByte", false, true)
+	indexModel("strings.IndexRune", false, true)
+	indexModel("strings.LastIndex", true, false)
+	indexModel("strings.LastIndexByte", true, true)
 	m.Ext["strings.SplitN"] = func(m *Machine, pos token.Pos, recv Value, args []Value) (Value, error) {
 		// symbolic: tokens stand for identifiers and never contain the separator
 		if len(args) == 3 {
@@ -374,6 +440,170 @@ func installStdlib(m *Machine) {
 			}
 		}
 		return unknownCall("fmt.Fprintf", args), nil
+	}
+	// slices helpers with a predicate or a comparable needle
+	listOf := func(v Value) ([]Value, bool) {
+		switch l := v.(type) {
+		case *List:
+			return l.Elems, true
+		case NilV:
+			return nil, true
+		}
+		return nil, false
+	}
+	indexFunc := func(name string, wantBool bool) {
+		m.Ext[name] = func(m *Machine, pos token.Pos, recv Value, args []Value) (Value, error) {
+			if len(args) != 2 {
+				return nil, undecided(pos, "%s arity", name)
+			}
+			elems, ok := listOf(args[0])
+			if !ok {
+				return unknownCall(name, args), nil
+			}
+			for i, e := range elems {
+				v, err := m.Call(pos, args[1], []Value{e})
+				if err != nil {
+					return nil, err
+				}
+				b, err := m.truth(pos, v, fmt.Sprintf("%d:%s#%d", pos, name, i))
+				if err != nil {
+					return nil, err
+				}
+				if b {
+					if wantBool {
+						return true, nil
+					}
+					return int64(i), nil
+				}
+			}
+			if wantBool {
+				return false, nil
+			}
+			return int64(-1), nil
+		}
+	}
+	indexFunc("slices.ContainsFunc", true)
+	indexFunc("slices.IndexFunc", false)
+	index := func(name string, wantBool bool) {
+		m.Ext[name] = func(m *Machine, pos token.Pos, recv Value, args []Value) (Value, error) {
+			if len(args) != 2 {
+				return nil, undecided(pos, "%s arity", name)
+			}
+			elems, ok := listOf(args[0])
+			if !ok {
+				return unknownCall(name, args), nil
+			}
+			for i, e := range elems {
+				b, err := m.truth(pos, m.equal(pos, e, args[1]), fmt.Sprintf("%d:%s#%d", pos, name, i))
+				if err != nil {
+					return nil, err
+				}
+				if b {
+					if wantBool {
+						return true, nil
+					}
+					return int64(i), nil
+				}
+			}
+			if wantBool {
+				return false, nil
+			}
+			return int64(-1), nil
+		}
+	}
+	index("slices.Contains", true)
+	index("slices.Index", false)
+	m.Ext["maps.Keys"] = func(m *Machine, pos token.Pos, recv Value, args []Value) (Value, error) {
+		if len(args) == 1 {
+			switch mv := args[0].(type) {
+			case *MapV:
+				m.Notes = append(m.Notes, Note{Rule: "H-MAPRANGE", Key: "map-range@" + m.Prog.Pos(pos), Pos: pos, Msg: "iteration over the keys of a map during interpretation"})
+				return &Seq{Elems: append([]Value{}, mv.Keys...)}, nil
+			case NilV:
+				return &Seq{}, nil
+			}
+		}
+		return unknownCall("maps.Keys", args), nil
+	}
+	m.Ext["maps.Values"] = func(m *Machine, pos token.Pos, recv Value, args []Value) (Value, error) {
+		if len(args) == 1 {
+			switch mv := args[0].(type) {
+			case *MapV:
+				m.Notes = append(m.Notes, Note{Rule: "H-MAPRANGE", Key: "map-range@" + m.Prog.Pos(pos), Pos: pos, Msg: "iteration over the values of a map during interpretation"})
+				return &Seq{Elems: append([]Value{}, mv.Vals...)}, nil
+			case NilV:
+				return &Seq{}, nil
+			}
+		}
+		return unknownCall("maps.Values", args), nil
+	}
+	m.Ext["slices.Values"] = func(m *Machine, pos token.Pos, recv Value, args []Value) (Value, error) {
+		if len(args) == 1 {
+			if elems, ok := listOf(args[0]); ok {
+				return &Seq{Elems: append([]Value{}, elems...)}, nil
+			}
+		}
+		return unknownCall("slices.Values", args), nil
+	}
+	m.Ext["slices.All"] = func(m *Machine, pos token.Pos, recv Value, args []Value) (Value, error) {
+		if len(args) == 1 {
+			if elems, ok := listOf(args[0]); ok {
+				sq := &Seq{Two: true, Elems: append([]Value{}, elems...)}
+				for i := range elems {
+					sq.Keys = append(sq.Keys, int64(i))
+				}
+				return sq, nil
+			}
+		}
+		return unknownCall("slices.All", args), nil
+	}
+	m.Ext["slices.Collect"] = func(m *Machine, pos token.Pos, recv Value, args []Value) (Value, error) {
+		if len(args) == 1 {
+			if sq, ok := args[0].(*Seq); ok && !sq.Two {
+				return &List{Elems: append([]Value{}, sq.Elems...)}, nil
+			}
+		}
+		return unknownCall("slices.Collect", args), nil
+	}
+	sortStrings := func(elems []Value) ([]Value, bool) {
+		c, ok := concreteArgs(elems)
+		if !ok {
+			return nil, false
+		}
+		sort.Strings(c)
+		return strList(c).Elems, true
+	}
+	m.Ext["slices.Sorted"] = func(m *Machine, pos token.Pos, recv Value, args []Value) (Value, error) {
+		if len(args) == 1 {
+			if sq, ok := args[0].(*Seq); ok && !sq.Two {
+				if out, ok := sortStrings(sq.Elems); ok {
+					return &List{Elems: out}, nil
+				}
+			}
+		}
+		return unknownCall("slices.Sorted", args), nil
+	}
+	for _, name := range []string{"sort.Strings", "slices.Sort"} {
+		name := name
+		m.Ext[name] = func(m *Machine, pos token.Pos, recv Value, args []Value) (Value, error) {
+			if len(args) == 1 {
+				if l, ok := args[0].(*List); ok {
+					if out, ok := sortStrings(l.Elems); ok {
+						copy(l.Elems, out)
+						return NilV{}, nil
+					}
+				}
+			}
+			return nil, undecided(pos, "%s of values that are not concrete strings", name)
+		}
+	}
+	m.Ext["slices.Clone"] = func(m *Machine, pos token.Pos, recv Value, args []Value) (Value, error) {
+		if len(args) == 1 {
+			if elems, ok := listOf(args[0]); ok {
+				return &List{Elems: append([]Value{}, elems...)}, nil
+			}
+		}
+		return unknownCall("slices.Clone", args), nil
 	}
 	m.Ext["fmt.Sprint"] = func(m *Machine, pos token.Pos, recv Value, args []Value) (Value, error) {
 		out := &Sym{}
